@@ -10,7 +10,7 @@ open RgVerif RgVerif.Glob
 
 /-- ripgrep's three-valued verdict as git's: excluded / re-included / undecided -/
 def Verdict.toOpt : Verdict → Option Bool
-  | .none => none
+  | .none => Option.none
   | .ignore _ => some true
   | .whitelist _ => some false
 
@@ -53,7 +53,7 @@ theorem matchedIgnore_go_eq (ci : Bool) (ign : List Bytes → List (List Nat)) (
     (hk : k ≤ comps.length) :
     (matchedIgnore.go ci ign comps isDir k).toOpt = GitSpec.entryVerdict.go ci ign comps isDir k := by
   induction k with
-  | zero => rfl
+  | zero => simp [matchedIgnore.go, GitSpec.entryVerdict.go, Verdict.toOpt]
   | succ k ih =>
     unfold matchedIgnore.go GitSpec.entryVerdict.go
     have hrel := wfRel_drop hwf (show k < comps.length by omega)
@@ -62,16 +62,16 @@ theorem matchedIgnore_go_eq (ci : Bool) (ign : List Bytes → List (List Nat)) (
     | none =>
       rw [hm] at hf
       simp only [Verdict.toOpt] at hf
-      rw [← hf]
+      simp only [hm, ← hf]
       exact ih (by omega)
     | ignore i =>
       rw [hm] at hf
       simp only [Verdict.toOpt] at hf
-      rw [← hf]; rfl
+      simp only [hm, ← hf, Verdict.toOpt]
     | whitelist i =>
       rw [hm] at hf
       simp only [Verdict.toOpt] at hf
-      rw [← hf]; rfl
+      simp only [hm, ← hf, Verdict.toOpt]
 
 theorem matchedIgnore_eq (ci : Bool) (ign : List Bytes → List (List Nat)) (comps : List Bytes)
     (isDir : Bool) (hag : ∀ d, FileAgree ci (ign d)) (hwf : wfRel comps = true) :
@@ -129,8 +129,10 @@ theorem rgSkipped_eq_gitIgnored (ci : Bool) (ign : List Bytes → List (List Nat
   rw [rgSkipped_go_eq ci ign comps isDir (comps.length + 1) 1 (Nat.le_refl _) hlen (by omega)]
   have : comps.length + 1 - 1 = comps.length := by omega
   rw [this]
-  apply List.any_congr rfl |>.trans
-  rfl
-  all_goals skip
+  congr 1
+  funext i
+  have h1 : 1 + i = i + 1 := by omega
+  rw [h1, isIgnore_iff_toOpt,
+    matchedIgnore_eq ci ign _ _ hag (wfRel_take hwf (by omega))]
 
 end RgVerif.Gitignore
